@@ -109,6 +109,62 @@ def name_module(nm, position):
     return m.encode()
 
 
+def dead_instruction_modules():
+    """every instruction of the supported set in DEAD code with nothing on the operand stack (valid: the stack is polymorphic there), behind
+    each of the three ways of getting there: after `unreachable`, after `return`, after `br 0` inside a block.  The translator has to get through
+    all of them - the writers consult the type stack, which has no entries there."""
+    ops = []
+    for code in sorted(NUMOP_NAME):
+        ops.append((NUMOP_NAME[code], numop(code)))
+    for code, (nm, t, w) in sorted(list(LOADS.items()) + list(STORES.items())):
+        ops.append((nm, memop(code, 0, 4)))
+    ops += [('memory.size', memory_size()), ('memory.grow', memory_grow()), ('memory.copy', memory_copy()), ('memory.fill', memory_fill()),
+            ('memory.init', memory_init(0)), ('data.drop', data_drop(0)), ('drop', DROP), ('select', SELECT), ('local.get', local_get(0)), ('local.set', local_set(0)),
+            ('local.tee', local_tee(0)), ('global.get', global_get(0)), ('global.set', global_set(0)), ('call', call(0)), ('call_indirect', call_indirect(0)),
+            ('br_if', br_if(0)), ('br_table', br_table([0, 0], 0)), ('i32.const', i32_const(7)), ('f64.const', f64_const(0x4000000000000000)), ('nop', NOP),
+            ('block', block(None) + END), ('loop(i32)', loop(I32) + i32_const(1) + END), ('if/else', if_(None) + ELSE + END)]
+    widths = [4, 8, 1, 2, 1, 2, 4]
+    lg = {1: 0, 2: 1, 4: 2, 8: 3}
+    ops += [('memory.atomic.notify', atomic(0x00, 2, 0)), ('memory.atomic.wait32', atomic(0x01, 2, 0)), ('memory.atomic.wait64', atomic(0x02, 3, 0)), ('atomic.fence', b'\xfe\x03\x00')]
+    for w in range(7):
+        ops.append(('atomic.load.%d' % w, atomic(0x10 + w, lg[widths[w]], 0)))
+        ops.append(('atomic.store.%d' % w, atomic(0x17 + w, lg[widths[w]], 0)))
+        for g in range(7):
+            ops.append(('atomic.rmw.%d.%d' % (g, w), atomic(0x1e + g * 7 + w, lg[widths[w]], 0)))
+    out = []
+    for how in ('unreachable', 'return', 'br'):
+        m = Module()
+        m.mems.append((1, 1)); m.tables.append((2, 2)); m.globals.append((I32, 1, i32_const(0)))
+        m.datas.append(('passive', 0, b'', b'abc')); m.datacount = True
+        t0 = m.type('', '')
+        assert t0 == 0
+        m.add_func('', '', (), b'', export='z')     # function 0: the target of the dead calls, type 0 = [] -> []
+        for nm, enc in ops:
+            if how == 'unreachable':
+                body = UNREACHABLE + enc
+            elif how == 'return':
+                body = RETURN + enc
+            else:
+                body = block(None) + br(0) + enc + END
+            # whatever the instruction leaves on the stack is dropped by the (dead) unreachable in front of the function's end
+            m.add_func('i', '', (), body + (UNREACHABLE if how != 'br' else b''))
+        out.append(('every instruction in dead code after %s (%d instructions)' % (how, len(ops)), m.encode()))
+    return out
+
+
+def duplicate_name_modules():
+    """name sections (used with -g) in which names occur twice and three times, in every position of the sorted order"""
+    out = []
+    for label, names in (('pair sorts first', ['a', 'a', 'b', 'c']), ('pair in the middle', ['a', 'b', 'b', 'c']), ('pair sorts last', ['a', 'b', 'c', 'c']),
+                         ('triple', ['b', 'b', 'b', 'a']), ('two pairs', ['x', 'y', 'x', 'y']), ('all equal', ['n', 'n', 'n', 'n']), ('triple and pair', ['q', 'p', 'q', 'p', 'q'])):
+        m = Module()
+        for k, nm in enumerate(names):
+            m.add_func('i', 'i', (), local_get(0) + i32_const(k) + op(0x6a), export=('e%d' % k if k == 0 else None))
+        m.names = dict(enumerate(names))
+        out.append(('duplicate debug names: %s' % label, m.encode()))
+    return out
+
+
 def size_modules():
     out = []
     m = Module()
@@ -235,6 +291,10 @@ def main(tier):
             jobs.append(('all valid fillings of context %s (batch of %d)' % (cname, len(b.cases)), b.wasm, [[]], w2c2))
     for n, d in hb[:2]:
         jobs.append((n, d, [['PREEXISTING'] + extra for extra in ([], ['-c'], ['-c', '-f', '1', '-t', '2'], ['-c', '-r', 'REF', '-f', '1'], ['-f', '1'])], w2c2))
+    for n, d in dead_instruction_modules():
+        jobs.append((n, d, [[], ['-p'], ['-g', '-f', '9', '-t', '3']], w2c2))
+    for n, d in duplicate_name_modules():
+        jobs.append((n, d, [['-g'], ['-g', '-p', '-m'], ['-g', '-f', '1', '-t', '2'], []], w2c2))
     positions = ('export', 'import-module', 'import-field', 'name-section', 'partial-name-section', 'import-global', 'debug-name')
     for nm in NAME_ALPHABET:
         for pos in positions:
